@@ -431,3 +431,116 @@ def check_relabel_worklist(ctx, F, rule="E-PERM.relabel"):
                                     else "update_level_no is not applied to the level looked up from the work-list element"))
             n += 1
     return n
+
+
+def check_acquire_guard(ctx, F, rule="E-PERM.acquire"):
+    """In the worker loop of `concurrent_bubble_sort` a position is taken for a further swap (`blocked.insert(p)`) only
+    when nobody holds it: every insert is dominated by a `blocked.contains(..)` test and lies on its `false` edge only.
+    Taking a position that another worker holds lets two level swaps restructure a common level at the same time."""
+    fids = [f for f in F.mir if f.startswith(CBS) and f.count("{closure#") == 1]
+    if not ctx.anchor(rule, "worker closure of concurrent_bubble_sort", len(fids) == 1):
+        return 0
+    fid = fids[0]
+    m = F.mir[fid]
+    B = cfg.Body(m)
+    blocks = m["blocks"]
+    ins = [i for i, t in B.calls() if (cfg.callee_name(t) or "").endswith("FixedBitSet::insert") and not blocks[i]["c"]]
+    cons = [i for i, t in B.calls() if (cfg.callee_name(t) or "").endswith("FixedBitSet::contains") and not blocks[i]["c"]]
+    if not ctx.anchor(rule, "blocked.insert / blocked.contains in the worker loop", len(ins) >= 2 and len(cons) >= 2):
+        return 0
+
+    def true_successors(c):
+        """blocks entered when contains() returned true"""
+        t = blocks[c]["t"]
+        dest, nxt = t.get("d"), t.get("t")
+        if not isinstance(dest, int) or nxt is None:
+            return None
+        neg = None
+        cur = nxt
+        for _ in range(3):
+            b = blocks[cur]
+            for s in b["s"]:
+                rv = s.get("rv") or {}
+                if rv.get("k") == "un" and rv.get("o") == "Not" and cfg.op_place(rv.get("a", rv.get("op"))) == dest:
+                    neg = s.get("lhs")
+            tt = b["t"]
+            if tt["k"] == "switch":
+                d = cfg.op_place(tt.get("d"))
+                zero = [blk for v, blk in tt["t"] if str(v) == "0"]
+                other = tt.get("o")
+                if d == dest:
+                    return [other]
+                if neg is not None and d == neg:
+                    return zero
+                return None
+            if tt["k"] == "goto":
+                cur = tt.get("t") if isinstance(tt.get("t"), int) else None
+                if cur is None:
+                    return None
+            else:
+                return None
+        return None
+    n = 0
+    for i in ins:
+        n += 1
+        doms = [c for c in cons if B.dominates(c, i)]
+        ok = False
+        why = "no dominating `blocked.contains(..)` test"
+        for c in doms:
+            ts = true_successors(c)
+            if ts is None:
+                continue
+            reach = set()
+            for s in ts:
+                if s is not None:
+                    reach |= B.reachable_from(s, avoid=(c,))
+            if i not in reach:
+                ok = True
+            else:
+                why = "it is reachable on the `contains(..) == true` edge of the test that guards it"
+        if not ok:
+            # the test may sit in a short-circuit chain:  flag = a && b && !contains(p);  if flag { insert(p) }
+            con_dests = {blocks[c]["t"].get("d") for c in cons if isinstance(blocks[c]["t"].get("d"), int)}
+            for sb in sorted(B.reach):
+                tt = blocks[sb]["t"]
+                if blocks[sb]["c"] or tt["k"] != "switch" or not B.dominates(sb, i):
+                    continue
+                L = cfg.op_place(tt.get("d"))
+                if not isinstance(L, int):
+                    continue
+                # follow one copy (`_104 = copy _48`)
+                srcs = {L}
+                for bb in sorted(B.reach):
+                    for st in blocks[bb]["s"]:
+                        if st.get("lhs") == L and (st.get("rv") or {}).get("k") == "use":
+                            q = cfg.op_place(st["rv"].get("op"))
+                            if isinstance(q, int):
+                                srcs.add(q)
+                zero = [blk for v, blk in tt["t"] if str(v) == "0"]
+                reach0 = set()
+                for z in zero:
+                    reach0 |= B.reachable_from(z, avoid=(sb,))
+                if i in reach0:
+                    continue
+                defs_ok, has_not = True, False
+                for bb in sorted(B.reach):
+                    for st in blocks[bb]["s"]:
+                        lh = st.get("lhs")
+                        if not isinstance(lh, int):
+                            continue
+                        if (lh in srcs and lh != L) or (lh == L and (st.get("rv") or {}).get("k") != "use"):
+                            rv = st.get("rv") or {}
+                            if rv.get("k") == "use" and str((rv.get("op") or {}).get("c")) == "false":
+                                continue
+                            if rv.get("k") == "un" and rv.get("o") == "Not" and cfg.op_place(rv.get("a", rv.get("op"))) in con_dests:
+                                has_not = True
+                                continue
+                            defs_ok = False
+                if defs_ok and has_not:
+                    ok = True
+                    break
+        ctx.ob(rule, "%s:insert#%d" % (rule, n), ok,
+               "%s (%s): %s" % (F.nice(fid), F.where(fid),
+                                "a position is taken only when it is not blocked" if ok else
+                                "a position is taken for a further swap although it may be held by another worker: " + why))
+    return n
